@@ -144,3 +144,10 @@ Proof.
       destruct (Pipe.drop_bytes _ (Pipe.slices p)) as [sl kk]. cbn [fst Pipe.logical]. exact Hb.
   - rewrite Hst, firstn_app, firstn_all, Nat.sub_diag. cbn [firstn]. now rewrite app_nil_r.
 Qed.
+
+(* the hole-free prefix is the same on both sides, hence so is the number of cells from the first hole on *)
+Lemma stable_ren m cs : Pipe.stable_cells (map (ren m) cs) = stable cs.
+Proof. induction cs as [|c cs IH]; [reflexivity|]. destruct c as [b|i]; cbn [map ren Pipe.stable_cells stable]; [now rewrite IH|reflexivity]. Qed.
+Lemma sr_cell_lag m s p : SR m s p ->
+  length (Pipe.abs p) - length (Pipe.stable_cells (Pipe.abs p)) = length (cells s) - length (stable (cells s)).
+Proof. intros S. rewrite <- (sr_cells m s p S), stable_ren, map_length. reflexivity. Qed.
